@@ -20,10 +20,10 @@ def getAlign : Sexp → Option Align
   | .atom "justify" => some .justify
   | _ => none
 
-/-- (geo g s wrap brq avail indent align lh asc desc x0 y0) -/
+/-- (geo g s wrap avail indent align lh asc desc x0 y0) -/
 def getGeo : Sexp → Option Geo
-  | .list [.atom "geo", g, s, wrap, brq, avail, indent, align, lh, asc, desc, x0, y0] => do
-    some { f := { g := ← g.asNat?, s := ← s.asNat? }, wrap := ← wrap.asBool?, brq := ← brq.asBool?, avail := ← avail.asInt?,
+  | .list [.atom "geo", g, s, wrap, avail, indent, align, lh, asc, desc, x0, y0] => do
+    some { f := { g := ← g.asNat?, s := ← s.asNat? }, wrap := ← wrap.asBool?, avail := ← avail.asInt?,
            indent := ← indent.asInt?, align := ← getAlign align, lh := ← lh.asRat?, asc := ← asc.asRat?,
            desc := ← desc.asRat?, x0 := ← x0.asRat?, y0 := ← y0.asRat? }
   | _ => none
@@ -51,7 +51,7 @@ def handle (req : Sexp) : Sexp :=
       let G ← getGeo geo
       let ts ← getToks toks
       let cs ← cs.mapM Sexp.asNat?
-      let items := chunk G.f false ts   -- the judge never uses the quirk
+      let items := chunk G.f ts
       match regroup cs items with
       | none => some (fail "the lines are not a partition of the paragraph into whole units (break inside a unit, spurious empty line, or content lost/duplicated)")
       | some ls =>
@@ -62,7 +62,7 @@ def handle (req : Sexp) : Sexp :=
     | .list [.atom "items", geo, toks] => do
       let G ← getGeo geo
       let ts ← getToks toks
-      some (ok ((chunk G.f G.brq ts).map fun a => .list [ofNat a.gap, ofBool a.forced, ofNat (a.w G.f), ofNat a.cnt]))
+      some (ok ((chunk G.f ts).map fun a => .list [ofNat a.gap, ofBool a.forced, ofNat (a.w G.f), ofNat a.cnt]))
     | _ => none
   r.getD (Sexp.err "c11: unknown or malformed request")
 
